@@ -405,7 +405,57 @@ def classify(meta, line, model_out):
             return 'table-row-group-negative-height'
     if clause in ('nonneg', 'stack', 'contain') and meta['line_overflows']:
         return 'first-line-overflow-margin-hack'
+    if clause == 'stack' and empty_first_children_explain(sx.loads_line(line)[5], int(index)):
+        return 'empty-first-child-above-parent'
     return None
+
+
+def empty_first_children_explain(tree, index):
+    """Is the `stack` rejection of subtree #index (index among the subtrees, preorder) due only to empty in-flow
+    children that precede every child with content, in a parent without top padding / border (a parent that
+    collapses with its children)?  The walk of `UsedCheck.stackKids` is redone here with those children left
+    out: the rejection is explained iff the walk then passes and at least one of them lies above the parent's
+    content box."""
+    trees = []
+
+    def sub(t):
+        trees.append(t)
+        for k in t[1]:
+            sub(k)
+    sub(tree)
+    box, kids = trees[index]
+    x, y, w, h, ml, mr, mt, mb, pl, pr, pt, pb, bl, br, bt, bb = (F(v) for v in box[:16])
+    if pt != 0 or bt != 0:
+        return False
+    content_top = y + mt + bt + pt
+
+    def nonneg(t):
+        return F(t[0][6]) >= 0 and F(t[0][7]) >= 0 and all(nonneg(k) for k in t[1])
+
+    def empty(t):
+        b = t[0]
+        return (all(k[0][24] == 'oof' for k in t[1]) and F(b[3]) == 0 and
+                all(F(b[i]) == 0 for i in (10, 11, 14, 15)))
+    pos, seen_content, above = content_top, False, False
+    for k in kids:
+        kind = k[0][24]
+        if kind == 'oof':
+            continue
+        if kind == 'other' or not nonneg(k):
+            pos = None
+            continue
+        top = F(k[0][1]) + F(k[0][6])
+        bottom = top + F(k[0][14]) + F(k[0][10]) + F(k[0][3]) + F(k[0][11]) + F(k[0][15])
+        if empty(k) and not seen_content:
+            if top < content_top:
+                above = True
+            continue                      # left out of the walk
+        if pos is not None and pos > top + EPS:
+            return False
+        if not empty(k):
+            seen_content = True
+            pos = bottom
+    return above
 
 
 def explain_row(line, model_out):
